@@ -433,9 +433,11 @@ def run_check(prop, tier, verif_seed=None, workers=None, n_override=None):
     chunk = getattr(engine, "CHUNK", 1)
     n_samples = 3
 
+    import cardillo
+
     print(
         f"cardsim check property={prop} tier={tier} VERIF_SEED={verif_seed} runs={n_runs} "
-        f"workers={workers} repo={repo_rev()}",
+        f"workers={workers} repo={repo_rev()} cardillo={os.path.dirname(os.path.dirname(cardillo.__file__))}",
         flush=True,
     )
 
@@ -582,8 +584,9 @@ def run_check(prop, tier, verif_seed=None, workers=None, n_override=None):
     if hasattr(engine, "extra_evidence"):
         evidence["coverage"].update(engine.extra_evidence(tier, results))
     if exit_code != EXIT_HARNESS:
-        os.makedirs(os.path.join(VERIF_DIR, "evidence"), exist_ok=True)
-        with open(os.path.join(VERIF_DIR, "evidence", f"{prop}.json"), "w") as f:
+        edir = os.environ.get("CARDSIM_EVIDENCE_DIR", os.path.join(VERIF_DIR, "evidence"))
+        os.makedirs(edir, exist_ok=True)
+        with open(os.path.join(edir, f"{prop}.json"), "w") as f:
             json.dump(jsonable(evidence), f, indent=1)
     print(
         f"summary property={prop} tier={tier} runs={n_runs} {dict(status)} distinct={len(abstract)} "
